@@ -234,7 +234,9 @@ func (r *SenderReport) MarshalSize() int {
 	for _, rep := range r.Reports {
 		repsLength += rep.len()
 	}
-	return headerLength + srHeaderLength + repsLength + len(r.ProfileExtensions)
+	peLength := len(r.ProfileExtensions)
+
+	return headerLength + srHeaderLength + repsLength + peLength + getPadding(peLength)
 }
 
 // Header returns the Header associated with this packet.
